@@ -219,7 +219,7 @@ def analyze(template: BoundTemplate, *, include_partials: bool) -> TemplateAnaly
             partial_scope = (
                 _StaticScope(set(partial.in_scope))
                 if partial.scope == PartialScope.ISOLATED
-                else root_scope.push(set(partial.in_scope))
+                else scope.push(set(partial.in_scope))
             )
 
             for child in node.children(
@@ -342,7 +342,7 @@ async def analyze_async(
             partial_scope = (
                 _StaticScope(set(partial.in_scope))
                 if partial.scope == PartialScope.ISOLATED
-                else root_scope.push(set(partial.in_scope))
+                else scope.push(set(partial.in_scope))
             )
 
             for child in await node.children_async(
